@@ -616,8 +616,10 @@ class _DAOStarFinderCatalog:
             # compute fit amplitude
             hx = hx_numer / hx_denom
 
-            # compute centroid shift
-            dx = ((kern_dkern_dx_sum
+            # compute centroid shift; the kernel-only term (zero by
+            # symmetry up to rounding) belongs to the model hx*kernel,
+            # so it must scale with the amplitude like the data terms
+            dx = ((hx * kern_dkern_dx_sum
                    - (data_dkern_dx_sum - dkern_dx_sum * data_sum))
                   / (hx * dkern_dx2_sum / sigma**2))
 
